@@ -56,7 +56,7 @@ Lemma link_fill_slice_kind_test :
 Proof. split; reflexivity. Qed.
 
 (* soundness of the executable checker: spec_ok accepts a successful observation only if it agrees (strictly) *)
-Lemma spec_ok_sound c v : spec_ok c = true -> c_outside c = false -> c_obs c = OOk v -> agrees (c_ty c) (c_doc c) v = true.
+Lemma spec_ok_sound c v : spec_ok c = true -> c_outside c = false -> c_obs c = OOk v -> agrees (c_ty c) (eff_doc (c_ty c) (c_doc c)) v = true.
 Proof.
   unfold spec_ok, spec_ok_t, obs_ok. intros H O E. rewrite O, E in H. repeat (apply andb_true_iff in H as [H _]). exact H.
 Qed.
